@@ -562,7 +562,7 @@ func c18Mutate(r *rand.Rand, text string) string {
 	})
 	for _, opt := range []string{"optimizeTables", "defaultReduce", "minimizeDFA", "tokenColumn", "tokenLineOffset"} {
 		if opt == "optimizeTables" && strings.Contains(text, "lalr(") {
-			continue // crashes the generator (recorded under C22)
+			continue // not supported together (compile error since /repo e607f20, a crash before)
 		}
 		if r.Intn(3) == 0 && !regexp.MustCompile(`(?m)^`+opt+`\s*=`).MatchString(text) {
 			if i := strings.Index(text, "\n::"); i >= 0 {
@@ -693,7 +693,7 @@ func c18RandGrammar(r *rand.Rand, name string) (string, []string) {
 	}
 	r.Shuffle(len(opts), func(a, b int) { opts[a], opts[b] = opts[b], opts[a] })
 	// Two generator crashes recorded under C22 are kept out of the stream (they would only be dropped by the
-	// child-process pre-check): optimizeTables with lalr(k) (lalr/optimize.go log.Fatal) and writeBison with a
+	// child-process pre-check): optimizeTables with lalr(k) (was a log.Fatal in lalr/optimize.go, a compile error since /repo e607f20) and writeBison with a
 	// nested choice carrying a mid-rule action (grammar/gen.go log.Fatalf).
 	la2 := lang == "go" && pick(35)
 	chosen := map[string]bool{}
